@@ -3,6 +3,7 @@ C19 — blocklisted addresses and passive mode are honoured on every path (serve
 -/
 import DhtVerif.Model.Server
 import DhtVerif.Lemmas.C19
+import DhtVerif.Props.SourceTrees2
 namespace Dht
 
 /-- A datagram from a blocked source has no effect at all: no output, no
@@ -89,5 +90,20 @@ example : (serveDatagram { tbl := { root := List.replicate 20 1 }, passive := fa
     ⟨[1,2,3,4], 5⟩ 50 (.msg { y := str "q", q := str "ping", t := [7], a := some { id := List.replicate 20 2 } }) {}).map
       (fun r => (r.2.1.length, r.1.ts.table.length)) = some (1, 1) := by
   decide +kernel
+
+/-! ## T1 by translation: the traversal's node filter -/
+
+/-- `Server.TraversalNodeFilter` in server.go (with `validNodeAddr` read from its own source) IS
+`traversalNodeFilter`, which rejects every candidate at a blocked IP: the traversals never query one. -/
+theorem C19.traversalNodeFilter_is_the_source (c : SrvCfg) (n : Cand) :
+    DExp.evalWith (tnfCond c n) (tnfRet c n) Gen.treeTraversalNodeFilter = some (traversalNodeFilter c n) ∧
+    (c.blocked n.addr.ip = true → traversalNodeFilter c n = false) :=
+  ⟨SourceTrees.traversalNodeFilter c n, traversalNodeFilter_blocked c n⟩
+
+/-- `validNodeAddr` in server.go IS `validNodeAddr`. -/
+theorem C19.validNodeAddr_is_the_source (ip : List UInt8) (port : Nat) :
+    Gen.treeValidNodeAddrLets = vnaLetsExpected ∧
+    DExp.evalWith (vnaCond ip port) boolRet Gen.treeValidNodeAddr = some (validNodeAddr ip port) :=
+  SourceTrees.validNodeAddr ip port
 
 end Dht
